@@ -148,6 +148,12 @@ func (x *Exec) execAppend(st *State, c *ssa.CallCommon, args []*Val, pos token.P
 		} else {
 			x.assume(st, tForall([]*Term{i}, body, []*Term{tSelect(nw, i)}))
 		}
+		if sn, ok := isIntLit(src.F[2].T); ok && sn >= 1 && sn <= 4 {
+			// ground facts for the appended elements (witnesses for existential goals about the new last element)
+			for j := int64(0); j < sn; j++ {
+				x.assume(st, tEq(tSelect(nw, tArith("+", dst.F[2].T, intLit(j))), tSelect(srcA, tArith("+", src.F[1].T, intLit(j)))))
+			}
+		}
 		x.heapSet(st, key, tStore(h, r, nw))
 	}
 	return &Val{K: VSlice, Typ: rt, F: []*Val{scalar(r, nil), scalar(intLit(0), nil), scalar(n, nil)}}, nil
